@@ -29,6 +29,19 @@ from vf.checks.c13 import ledger  # noqa: E402
 
 def main():
     case = json.load(open(sys.argv[1]))
+    slow = float(os.environ.get("VERIF_SLOW", "0") or 0)
+    if slow:
+        # a slower machine: wall-clock time passes between updates (the simulated clock is unaffected)
+        import time
+        from flumine import FlumineSimulation
+
+        orig = FlumineSimulation._process_market_books
+
+        def slowed(self, event):
+            time.sleep(slow)
+            return orig(self, event)
+
+        FlumineSimulation._process_market_books = slowed
     tr = simrun.run_case(case)
     rows = {}
     for s in tr.strategies:
